@@ -105,6 +105,9 @@ func c20qRun(t *testing.T, sc c20qScenario, c *vsched.Chooser) (out vsched.Outco
 		if s.Deadlock || s.Livelock {
 			v = append(v, vsched.Fail("queue-deadlock-or-livelock", "blocked: %v", s.Blocked))
 		}
+		for _, tp := range s.ThreadPanics {
+			v = append(v, vsched.Fail("queue-panic-in-thread", "%s", tp))
+		}
 		lenBefore := q.Length()
 		for misses := 0; misses < 2; {
 			before := len(h.ops)
